@@ -296,6 +296,33 @@ def split_line(line):
         line, conv = line.split(' | ', 1)
     return line, conv, state
 
+def pruned(line):
+    """a token line with the *content* of every decoded message removed (its presence is kept):
+    what the sequencing / reassembly properties speak about"""
+    if line is None or '(v ' not in line:
+        return line
+    try:
+        t = parse_tree(line)
+    except Exception:
+        return line
+    def go(n):
+        if isinstance(n[1], str): return n
+        if n[0] == 'v': return ('v', [])
+        return (n[0], [go(x) for x in n[1]])
+    return show(go(t))
+
+def message_of(line):
+    """the decoded-message subtree `(v ...)` of a step line as text, or None"""
+    i = line.find('(v ')
+    if i < 0: return None
+    depth = 0
+    for j in range(i, len(line)):
+        if line[j] == '(': depth += 1
+        elif line[j] == ')':
+            depth -= 1
+            if depth == 0: return line[i:j + 1]
+    return None
+
 def diff_trees(a, b, path=''):
     """Differences between two trees: list of (path of kinds down to the differing item, impl, model)."""
     if isinstance(a[1], str) or isinstance(b[1], str):
